@@ -20,6 +20,11 @@ def _alloc():
     return alloc.generate(os.path.join(REPO, 'src/quantity/__init__.py'))
 
 
+def _rates():
+    from . import rates
+    return rates.generate(os.path.join(REPO, 'src/quantity/money/__init__.py'))
+
+
 def _oplayer():
     from . import oplayer
     return oplayer.generate(os.path.join(REPO, 'src/quantity/__init__.py'))
@@ -79,6 +84,7 @@ GENERATORS = [
     ('RoundingImpl', _rounding),
     ('QuantityImpl', _qlayer),
     ('AllocImpl', _alloc),
+    ('RatesImpl', _rates),
     ('OpsImpl', _oplayer),
     ('MoneyConvImpl', _mconv),
     ('ConvStackImpl', _cstack),
